@@ -37,9 +37,10 @@ fn run_config_validate(config_path: &Path) -> i32 {
 
 /// Validates a configuration file.
 ///
-/// Two-phase validation:
+/// Three-phase validation:
 /// 1. Direct TOML parse - catches syntax errors with detailed error messages
 /// 2. Full load with extends - validates inheritance chain and semantics
+/// 3. Checker construction - the same validation `check` performs before scanning
 ///
 /// # Errors
 /// Returns an error if the file doesn't exist, contains invalid TOML,
@@ -57,7 +58,17 @@ pub(crate) fn run_config_validate_impl(config_path: &Path) -> Result<()> {
     let _: Config = toml::from_str(&content)?;
 
     // Phase 2: Full load with extends chain and semantic validation
-    super::context::load_config(Some(config_path), false, false, FetchPolicy::Normal)?;
+    let loaded = super::context::load_config(Some(config_path), false, false, FetchPolicy::Normal)?;
+
+    // Phase 3: Build the checkers exactly as `check` does, so that limits, sibling rules,
+    // allow/deny mixing, rule globs and naming regexes are validated here too
+    let config = &loaded.config;
+    super::context::CheckContext::from_config(
+        config,
+        config.content.warn_threshold,
+        config.scanner.exclude.clone(),
+        config.scanner.gitignore,
+    )?;
 
     Ok(())
 }
